@@ -39,14 +39,14 @@ const BigVote = 2000000 * ELA
 
 // Cfg mirrors the CONSTANTS of CR.tla / Proposal.tla.
 type Cfg struct {
-	NCR, NProps, NOwners, NVoters             int
-	MemberCount, AgreeCount                   int
-	VotingPeriod, ClaimPeriod, DutyPeriod     int
-	Lockup, PropCRVote, PropPubVote           int
-	VotingStart, CommitteeStart, MaxTracking  int
-	RejectThreshold                           int
-	DupRule                                   bool
-	Preambles                                 map[string][][]Tx
+	NCR, NProps, NOwners, NVoters            int
+	MemberCount, AgreeCount                  int
+	VotingPeriod, ClaimPeriod, DutyPeriod    int
+	Lockup, PropCRVote, PropPubVote          int
+	VotingStart, CommitteeStart, MaxTracking int
+	RejectThreshold                          int
+	DupRule                                  bool
+	Preambles                                map[string][][]Tx
 }
 
 // Tx is an abstract transaction of the spec (record BaseTx).
@@ -169,14 +169,15 @@ type Inst struct {
 	env    *Env
 	comm   *crstate.Committee
 	bc     *blockchain.BlockChain
+	ckp    *checkpoint.Manager
 	height uint32
 	tip    uint32 // what GetHeight() answers: the height of the block being processed
 }
 
 func (e *Env) NewInst() *Inst {
 	in := &Inst{env: e}
-	ckp := checkpoint.NewManager(e.params)
-	in.comm = crstate.NewCommittee(e.params, ckp)
+	in.ckp = checkpoint.NewManager(e.params)
+	in.comm = crstate.NewCommittee(e.params, in.ckp)
 	in.comm.RegisterFuncitons(&crstate.CommitteeFuncsConfig{
 		GetTxReference: func(tx interfaces.Transaction) (map[*common2.Input]common2.Output, error) {
 			return map[*common2.Input]common2.Output{}, nil
